@@ -59,13 +59,14 @@ theorem C11_tables_value_plain : valueStyle ⟨true, .str, true⟩ false valueWo
 PLAIN in the output then the decoder classifies the token as the string s itself — never as a
 number, bool, null, infinity or NaN.  Assumed about the third-party library, for this s only:
 (hlib) what the library itself leaves unquoted, its lexer reads back as ONE token carrying the
-same text, typed as a string or as a non-string scalar; (hstart) the lexer types a text as a
-non-string scalar only if it begins with one of the bytes of `nonStringStarts`
+same text, typed as a string or as a non-string scalar; (hstart) the lexer types a text, taken over unchanged as the
+token's value, as a non-string scalar only if it begins with one of the bytes of `nonStringStarts`
 ("0123456789+-.~<tTfFnN", regenerated from the source).  Everything else — legacy strings,
 the four regexps, special floats, YAML 1.1 octals, underscores — is the modelled in-repo code. -/
 theorem C11_plain_is_string (lx : Lex) (libq : Bool) (s : Bytes) (multi : Bool)
     (hlib : libq = false → lx.single = true ∧ lx.same = true ∧ (lx.ty = .str ∨ lx.ty.nonString = true))
-    (hstart : ∀ c t, s = c :: t → nonStringStarts.contains c = false → lx.ty.nonString = false)
+    (hstart : ∀ c t, s = c :: t → nonStringStarts.contains c = false → lx.same = true →
+      lx.ty.nonString = false)
     (hp : valueStyle lx libq s multi = .plain) : decodeScalar lx.ty s = .str s := by
   obtain ⟨hd, hl⟩ := lib_of_plain _ _ hp
   obtain ⟨h1, h2, h3⟩ := hlib hl
@@ -75,7 +76,8 @@ theorem C11_plain_is_string (lx : Lex) (libq : Bool) (s : Bytes) (multi : Bool)
 they contain a line break). -/
 theorem C11_plain_key_is_string (lx : Lex) (libq : Bool) (s : Bytes)
     (hlib : libq = false → lx.single = true ∧ lx.same = true ∧ (lx.ty = .str ∨ lx.ty.nonString = true))
-    (hstart : ∀ c t, s = c :: t → nonStringStarts.contains c = false → lx.ty.nonString = false)
+    (hstart : ∀ c t, s = c :: t → nonStringStarts.contains c = false → lx.same = true →
+      lx.ty.nonString = false)
     (hp : keyStyle lx libq s = .plain) : decodeScalar lx.ty s = .str s := by
   obtain ⟨hd, hl⟩ := lib_of_plain _ _ hp
   obtain ⟨h1, h2, h3⟩ := hlib hl
@@ -85,7 +87,7 @@ theorem C11_plain_key_is_string (lx : Lex) (libq : Bool) (s : Bytes)
 -- as strings; the hypotheses are met by the lexer verdict goccy really gives (one string token)
 example : decodeScalar .str (b "1Gi") = .str (b "1Gi") :=
   C11_plain_is_string ⟨true, .str, true⟩ false (b "1Gi") false (fun _ => ⟨rfl, rfl, Or.inl rfl⟩)
-    (fun _ _ _ _ => rfl) (by decide)
+    (fun _ _ _ _ _ => rfl) (by decide)
 example : keyStyle ⟨true, .str, true⟩ false (b "0o8") = .plain := by decide
 
 /-! ### numbers, dates and YAML 1.1 octals are quoted -/
